@@ -72,13 +72,19 @@ func (c *Ctx) add(rule, construct, pos, verdict, detail string) {
 }
 
 // Ok records a discharged obligation.
-func (c *Ctx) Ok(rule, construct, pos, detail string) { c.add(rule, construct, pos, Discharged, detail) }
+func (c *Ctx) Ok(rule, construct, pos, detail string) {
+	c.add(rule, construct, pos, Discharged, detail)
+}
 
 // Fail records a violated obligation.
-func (c *Ctx) Fail(rule, construct, pos, detail string) { c.add(rule, construct, pos, Violation, detail) }
+func (c *Ctx) Fail(rule, construct, pos, detail string) {
+	c.add(rule, construct, pos, Violation, detail)
+}
 
 // Undecided records that an anchor / idiom could not be resolved; it fails the check.
-func (c *Ctx) Undecided(rule, construct, detail string) { c.add(rule, construct, "", Undecided, detail) }
+func (c *Ctx) Undecided(rule, construct, detail string) {
+	c.add(rule, construct, "", Undecided, detail)
+}
 
 // Check is Ok/Fail by condition.
 func (c *Ctx) Check(cond bool, rule, construct, pos, okDetail, failDetail string) bool {
@@ -228,8 +234,8 @@ func (c *Ctx) Finish(verifDir string, seed int64, checkerCmd string) int {
 				"goarch":        c.P.GOARCH,
 				"load_seconds":  c.P.LoadSecs,
 			},
-			"checker_cmd":   checkerCmd,
-			"trusted_base":  []string{"go/types, go/ssa, go/callgraph (golang.org/x/tools v0.29.0)", "the Go toolchain's parser and type checker", "third-party libraries by signature only (gjson, sjson, go-set, macaroon, ed25519, encoding/json)", "the specification tables transcribed in checker/props"},
+			"checker_cmd":  checkerCmd,
+			"trusted_base": []string{"go/types, go/ssa, go/callgraph (golang.org/x/tools v0.29.0)", "the Go toolchain's parser and type checker", "third-party libraries by signature only (gjson, sjson, go-set, macaroon, ed25519, encoding/json)", "the specification tables transcribed in checker/props"},
 		},
 		"assumptions": c.Assumptions,
 		"wall_s":      time.Since(c.start).Seconds() + c.P.LoadSecs,
@@ -274,7 +280,6 @@ func (c *Ctx) Merge(o *Ctx) {
 		c.Obs = append(c.Obs, ob)
 	}
 }
-
 
 // Graph returns the call graph used for reachability obligations: VTA (most precise
 // available) in the quick tier; CHA, a superset and therefore more conservative, in the
